@@ -3,6 +3,7 @@ package props
 import (
 	"encoding/json"
 	"fmt"
+	"math"
 	"math/big"
 	"strings"
 	"testing"
@@ -12,6 +13,10 @@ import (
 
 	sdk "github.com/cosmos/cosmos-sdk/types"
 	transfertypes "github.com/cosmos/ibc-go/v8/modules/apps/transfer/types"
+
+	orbitertypes "github.com/noble-assets/orbiter/v2/types"
+	dispatchertypes "github.com/noble-assets/orbiter/v2/types/component/dispatcher"
+	"github.com/noble-assets/orbiter/v2/types/core"
 
 	"verif/harness/kit"
 	"verif/harness/world"
@@ -276,6 +281,10 @@ var naturalCauses = []string{
 	"blacklisted-fee-recipient", "blacklisted-internal-recipient", "blacklisted-orbiter", "ftf-paused", "above-burn-limit",
 	"cctp-unknown-domain", "cctp-burning-paused", "hyp-unknown-domain", "hyp-unknown-token", "hyp-token-of-other-denom",
 	"blocked-internal-recipient", "escrow-short", "receive-disabled", "none",
+	// not a failure of the transfer: the one documented exception. The statistics of the route
+	// cannot be recorded (counter saturated by a valid genesis); the transfer itself must still
+	// be complete.
+	"stats-counter-saturated",
 }
 
 // applyCause turns a transfer that succeeds in the clean environment into one with a natural
@@ -324,6 +333,19 @@ func applyCause(w *world.World, ctx sdk.Context, c *caseC03Natural) error {
 		t.Actions = nil
 	case "receive-disabled":
 		w.App.TransferKeeper.SetParams(ctx, transfertypes.Params{SendEnabled: true, ReceiveEnabled: false})
+	case "stats-counter-saturated":
+		// a state a validated genesis can set: the dispatch counter of this route is at its maximum
+		dp, dc := kit.Destination(t.Route)
+		src := core.CrossChainID{ProtocolId: core.PROTOCOL_IBC, CounterpartyId: world.NobleChannel(t.Channel)}
+		dst := core.CrossChainID{ProtocolId: core.ProtocolID(dp), CounterpartyId: dc}
+		g := orbitertypes.DefaultGenesisState()
+		g.DispatcherGenesis.DispatchedCounts = []dispatchertypes.DispatchCountEntry{{SourceId: &src, DestinationId: &dst, Count: math.MaxUint64}}
+		if err := g.Validate(); err != nil {
+			return fmt.Errorf("harness: %w", err)
+		}
+		if err := w.App.OrbiterKeeper.Dispatcher().InitGenesis(ctx, g.DispatcherGenesis); err != nil {
+			return fmt.Errorf("harness: %w", err)
+		}
 	}
 	return nil
 }
@@ -384,8 +406,8 @@ func TestC03Natural(t *testing.T) {
 		}
 	})
 	for _, cause := range naturalCauses {
-		if cause == "none" {
-			rec.Require("cause/none", "success", 5)
+		if cause == "none" || cause == "stats-counter-saturated" {
+			rec.Require("cause/"+cause, "success", 5)
 			continue
 		}
 		rec.Require("cause/"+cause, "error-ack", 3)
